@@ -347,6 +347,15 @@ def l4(ctx):
             tys = (strip_lt(b.locals[1]['ty']), strip_lt(b.locals[0]['ty']))
             if tys != (src, dst):
                 ctx.violate(key, p, 'conversion signature is %s -> %s, expected %s -> %s' % (tys[0], tys[1], src, dst))
+            if r is not None and r[0] == 'cast' and r[1] == 'PtrToPtr' and src.startswith('&'):
+                # `&*(self as *const A as *const B)`: a reinterpreting reborrow, the borrowing twin of transmute(self)
+                x = r
+                while x[0] == 'cast' and x[1] == 'PtrToPtr':
+                    x = x[2]
+                if x[0] in ('ref', 'rawptr') and x[1] == ('deref', ('param', 1)):
+                    x = ('param', 1)
+                if x == ('param', 1):
+                    r = ('cast', 'Transmute', ('param', 1), r[3])
             if r is not None and r[0] == 'cast' and r[1] == 'Transmute' and r[2] == ('param', 1):
                 if any(e.name in ('LOCK', 'TRYLOCK', 'WR', 'RD') for e in evs):
                     ctx.violate(key, p, 'transmuting conversion also touches the channel state')
@@ -385,8 +394,7 @@ def l4(ctx):
                     ss, ds = side_of_ty(sty), side_of_ty(dty)
                     involves = any(hh + '<' in sty or hh + '<' in dty for hh in fam.HANDLES)
                     if involves:
-                        ctx.oblige(1)
-                        ctx.instance('transmute in %s' % key)
+                        ctx.oblige(1)  # not an anchor: conversions may legitimately be written without transmute
                         if ss is None or ds is None or ss != ds:
                             ctx.violate(key, None, 'transmute between %s and %s crosses channel sides or involves a non-handle type' % (sty, dty), at=s.get('at'), sig='transmute')
                         elif key not in conv:
@@ -588,7 +596,9 @@ def eval_bool(v, assign):
     if r is None:
         return None
     lab, pol = r
-    if lab == 'room':
+    if lab == 'both0':
+        val = assign['sc0'] and assign['rc0']
+    elif lab == 'room':
         val = not assign['full']
     elif lab == 'full_eq':
         val = assign['full']
